@@ -133,7 +133,9 @@ theorem paramNames_nodup (c : Cls) : (paramNames c).Nodup := by cases c <;> deci
 
 theorem params_keys_nodup (c : Cls) : (Env.keys (params c)).Nodup := paramNames_nodup c
 
-theorem cfgClosed_iff (c : Cls) : cfgClosed c = true ↔ c ≠ .quantized_hswish := by
+/-- every class emits only constructor parameters of its own (since the fix round also
+    `quantized_hswish`, whose inherited config used to carry `keep_negative`) -/
+theorem cfgClosed_all (c : Cls) : cfgClosed c = true := by
   cases c <;> decide
 
 theorem serialised_nodup (c : Cls) : (serialised c).Nodup := by cases c <;> decide
@@ -260,11 +262,9 @@ theorem construct_fixed {c : Cls} {args : List PyVal} {kw : Env} {q : Q}
       rw [check_norm, hc, norm_norm]
 
 theorem fromConfig_getConfig (q : Q) :
-    fromConfig q.cls (getConfig q) =
-      if cfgClosed q.cls then init q.cls (forget q.cls q.env) else .error .typeError := by
+    fromConfig q.cls (getConfig q) = init q.cls (forget q.cls q.env) := by
   unfold fromConfig construct
-  rw [bind_getConfig]
-  cases cfgClosed q.cls <;> rfl
+  rw [bind_getConfig, cfgClosed_all, if_pos rfl]
 
 /-! ### what the rebuilt arguments are -/
 
@@ -304,9 +304,8 @@ theorem lookup_isSome_of_mem {α : Type} {l : List (String × α)} {k : String}
       · exact absurd h hk
       · obtain ⟨v, hv⟩ := ih h; exact ⟨v, by simp only [List.lookup, h1]; exact hv⟩
 
-theorem cfg_all_attr {c : Cls} (hc : c ≠ .quantized_hswish) :
-    ∀ p ∈ cfgSpec c, p.2 = CfgSrc.attr := by
-  cases c <;> first | exact absurd rfl hc | decide
+theorem cfg_all_attr (c : Cls) : ∀ p ∈ cfgSpec c, p.2 = CfgSrc.attr := by
+  cases c <;> decide
 
 theorem mem_params_of_name {c : Cls} {k : String} (h : k ∈ paramNames c) :
     (k, defaultOf c k) ∈ params c := by
@@ -323,11 +322,11 @@ theorem forget_get {c : Cls} (e : Env) {k : String} (h : k ∈ paramNames c) :
   unfold forget
   exact get_map_params (paramNames_nodup c) _ hp
 
-theorem forget_get_serialised {c : Cls} (hc : c ≠ .quantized_hswish) (e : Env) {k : String}
+theorem forget_get_serialised {c : Cls} (e : Env) {k : String}
     (h : k ∈ paramNames c) (hs : k ∈ serialised c) : (forget c e).get k = e.get k := by
   rw [forget_get e h]
   obtain ⟨v, hv⟩ := lookup_isSome_of_mem hs
-  have := cfg_all_attr hc _ (mem_of_lookup hv)
+  have := cfg_all_attr c _ (mem_of_lookup hv)
   simp only at this
   subst this
   rw [hv]
@@ -341,7 +340,7 @@ theorem forget_get_dropped {c : Cls} (e : Env) {k : String} (h : k ∈ dropped c
   obtain ⟨h1, h2⟩ := mem_dropped.1 h
   rw [forget_get e h1, lookup_none_of_not_mem h2]
 
-theorem forget_eq_self {c : Cls} (hc : c ≠ .quantized_hswish) {e : Env}
+theorem forget_eq_self {c : Cls} {e : Env}
     (hk : e.keys = paramNames c) (hd : ∀ k ∈ dropped c, e.get k = defaultOf c k) :
     forget c e = e := by
   have hn : e.keys.Nodup := hk ▸ paramNames_nodup c
@@ -360,7 +359,7 @@ theorem forget_eq_self {c : Cls} (hc : c ≠ .quantized_hswish) {e : Env}
       rw [hd _ hdr]
       exact (Env.get_of_mem (params_keys_nodup c) hp).symm
     | some src =>
-      have := cfg_all_attr hc _ (mem_of_lookup hl)
+      have := cfg_all_attr c _ (mem_of_lookup hl)
       simp only at this
       subst this; rfl
   rw [h1]
@@ -369,5 +368,19 @@ theorem forget_eq_self {c : Cls} (hc : c ≠ .quantized_hswish) {e : Env}
   rw [h2, ← hk]
   have := Env.eta hn
   simpa [Env.keys, List.map_map, Function.comp_def] using this
+
+/-- every emitted key is a constructor parameter -/
+theorem serialised_sub {c : Cls} {k : String} (h : k ∈ serialised c) : k ∈ paramNames c := by
+  have := cfgClosed_all c
+  simp only [cfgClosed, List.all_eq_true] at this
+  simpa using this k h
+
+/-- the argument checks of `__init__` read serialised options only, so they give the same
+    verdict on the rebuilt arguments -/
+theorem check_forget (c : Cls) (e : Env) : check c (forget c e) = check c e := by
+  cases c <;> rfl
+
+theorem forget_keys (c : Cls) (e : Env) : (forget c e).keys = paramNames c := by
+  simp [forget, Env.keys, paramNames, List.map_map, Function.comp_def]
 
 end QKV.Py
